@@ -12,9 +12,10 @@ ops of property C16:
   → hex of the output with every float token replaced by `f<bits>` | na | panic | hang
   wf <tape> <hex>
     the runtime-checked hypothesis of C16_total / C16_content: `wf` iff `wfTapeB tape` (the tape is
-    the token list of a document tree) AND, for all 18 option × 2 encoding combinations, the
-    model's `toJson` equals `jsonOfDoc` of that tree (compared as rendered bytes);
-    `notwf` / `mismatch` otherwise.  The harness answers `wf` for every tape the real parser produced.
+    the token list of a document tree) AND (a spot check of the proved C16_content) the model's
+    `toJson` equals `jsonOfDoc` of that tree for the three duplicate-key modes (compared as
+    rendered bytes); `notwf` / `mismatch` otherwise.  The harness answers `wf` for every tape
+    the real parser produced.
 -/
 namespace Jomini.Driver.C16
 open Jomini Jomini.Driver Jomini.Json
@@ -73,13 +74,16 @@ def allOpts : List Opts :=
   [false, true].flatMap fun p => [DupMode.group, .preserve, .kvp].flatMap fun d =>
     [Narrow.all, .unquoted, .none].map fun n => ⟨p, d, n⟩
 
+def spotOpts : List Opts :=
+  [⟨false, .group, .all⟩, ⟨true, .preserve, .unquoted⟩, ⟨false, .kvp, .none⟩]
+
 def wfAnswer (t : Tape) : String :=
   match docOf t with
   | none => "notwf"
   | some d =>
     if !docAt t d then "notwf"
     else
-      let ok := allOpts.all fun o => [Enc.w1252, Enc.utf8].all fun enc =>
+      let ok := spotOpts.all fun o => [Enc.utf8].all fun enc =>
         match toJson o enc .obj t with
         | .ok (some v) => render floatTok o v == render floatTok o (jsonOfDoc o enc d)
         | _ => false
